@@ -209,7 +209,7 @@ def handle (line : String) : String :=
   | ["tbl"] =>
     "E" ++ showLines showCps Generated.lineEndings ++ " L" ++ showCps Generated.lstripSet
       ++ " R" ++ showCps Generated.rstripSet ++ " T" ++ showCps Generated.lstripSetT ++ " S" ++ showCps Generated.strBreakSet
-      ++ " B" ++ showCps Generated.bytesBreakSet
+      ++ " B" ++ showCps Generated.bytesBreakSet ++ " Z" ++ (if Generated.alignStopsAtEof then "1" else "0")
   | _ => "bad-op"
 
 end C19.Driver
